@@ -117,12 +117,28 @@ func checkPos(err error, wantFile string, okLine func(int) bool, wantDesc string
 // ---- render faults
 
 var c19Bad = []string{"{1 < 'a'}", "{$ij.nope.x}", "{$u.v}", "{length($ij.nolist)}", "{$ij.a|truncate:'x'}",
-	"{call .leaf data=\"$ij.nope.x\" /}", "{call .leaf}{param key=\"u\" value=\"1 < 'a'\" /}{/call}", "{css $ij.nope.x, base}"}
+	"{call .leaf data=\"$ij.nope.x\" /}", "{call .leaf}{param key=\"u\" value=\"1 < 'a'\" /}{/call}", "{css $ij.nope.x, base}",
+	// commands that span lines, the failing expression on a later line than the command's own: the command's line is reported
+	"{if true\n   and $ij.nope.x}y{/if}", "{print\n   $ij.nope.x}", "{$ij.a\n   |truncate:'x'}", "{call .leaf}\n{param u:\n   $ij.nope.x /}\n{/call}", "{foreach $q2 in\n   $ij.nope.x}{$q2}{/foreach}",
+	"{switch 1}{case\n   $ij.nope.x}a{/switch}", "{let $w2:\n\n   1 < 'a' /}{$w2}", "{if false}{elseif\n   $ij.nope.x}y{/if}", "{$ij.nope ? 1\n   : $ij.nope.x}"}
+
+// inside a {msg} only prints and calls are commands
+func c19MsgSafe(bad string) bool {
+	for _, p := range []string{"{if", "{foreach", "{switch", "{let", "{css"} {
+		if strings.HasPrefix(bad, p) {
+			return false
+		}
+	}
+	return true
+}
 
 // c19RenderCase builds a chain entry -> t1 -> ... -> td across two files with a failing print at
 // depth d, wrapped in a block of the given kind; returns files, entry file name, acceptable lines.
 func c19RenderCase(r *fw.Rand, depth, wrap, padEntry, padCallee int, sameFile bool) (files []srcFile, entryFile string, okLines map[int]bool, desc string) {
 	bad := c19Bad[r.Intn(len(c19Bad))]
+	for wrap == 5 && !c19MsgSafe(bad) {
+		bad = c19Bad[r.Intn(len(c19Bad))]
+	}
 	wrapOpen := []string{"", "{if true}", "{foreach $q in [1]}", "{let $v}", "{switch 1}{case 1}", "{msg desc=\"d\"}"}[wrap]
 	wrapClose := []string{"", "{/if}", "{/foreach}", "{/let}{$v}", "{/switch}", "{/msg}"}[wrap]
 	okLines = map[int]bool{}
